@@ -80,6 +80,13 @@ func c08Vals(d ref.DT, n int, vs string) []interface{} {
 		case "inf": // float only: the infinities occur several times, first at the very first position
 			e := []float64{math.Inf(1), 1, math.Inf(1), math.Inf(-1), 2, math.Inf(-1), 3}
 			v[i] = reflect.ValueOf(e[i%len(e)]).Convert(d.D.Type).Interface()
+		case "round": // float only: partial sums that round in the element type (2^24 + 1 in float32, 2^53 + 1 in float64)
+			big := float64(1 << 53)
+			if d.Name == "float32" {
+				big = float64(1 << 24)
+			}
+			e := []float64{big, 1, 1, -3, 0.5, big, 1, 1, 1}
+			v[i] = reflect.ValueOf(e[i%len(e)]).Convert(d.D.Type).Interface()
 		case "overflow":
 			e := edgeVals(d)
 			v[i] = e[i%2] // min,max alternating (ints); for floats +-Inf
@@ -125,8 +132,11 @@ func runC08(r *core.Run) {
 					axesSets = append(axesSets, []int{2, 0})
 				}
 			}
-			for _, vs := range []string{"id", "ties", "overflow", "inf"} {
+			for _, vs := range []string{"id", "ties", "overflow", "inf", "round"} {
 				if d.Class == ref.CComplex && vs != "id" {
+					continue
+				}
+				if vs == "round" && !d.IsFloat() {
 					continue
 				}
 				if vs == "inf" && (!d.IsFloat() || len(shape) > 2) {
@@ -143,6 +153,10 @@ func runC08(r *core.Run) {
 							continue
 						}
 						for _, axes := range axesSets {
+							if vs == "round" && (op.name != "Sum" || len(axes) != 1) {
+								// rounding partial sums: judged where the fold order is beyond doubt - the left fold along ONE axis
+								continue
+							}
 							for _, api := range []string{"func", "method"} {
 								if api == "func" && op.name != "Sum" {
 									continue // only Sum has a package-level function
